@@ -7,6 +7,7 @@ import vlib
 AREA = "turbotunnel"
 KEY_LEAK_W = "redial-writer-fails-first-leak"
 KEY_LEAK_R = "redial-reader-blocked-leak"
+KEY_OVERLAP = "redial-carrier-overlap"
 
 
 # ------------------------------------------------------------------ container/heap
@@ -340,8 +341,8 @@ def key_qc(line, impl, model):
 def gen_redial(ctx):
     rng = ctx.rng
     lines, kinds = [], []
-    def add(toks, k):
-        lines.append("%s redial 1 %s" % (AREA, ",".join(toks))); kinds.append(k)
+    def add(toks, k, op="redial"):
+        lines.append("%s %s 1 %s" % (AREA, op, ",".join(toks))); kinds.append(k)
     # the documented leak shapes
     add(["D1", "W", "w0:0", "D1", "W", "w1:0", "C"], "redial-writer-first")
     add(["D1", "W", "r0:0", "D1", "W", "r1:0", "C"], "redial-reader-first-writer-parked")
@@ -385,6 +386,54 @@ def gen_redial(ctx):
                 toks.append("%s%d:%d" % (rng.choice("rw"), k, rng.choice([0, 0, 1])))
         if toks:
             add(toks, "redial-random")
+    # ---- carriers whose Close() takes time ("redials"): Close blocks until the script lets it return
+    # (K<k>); a carrier counts as closed only then.  dialContext records, when it hands out a carrier,
+    # how many earlier carriers' Close has not returned (oad, must be 0): the next dial must not even
+    # be pending while the previous carrier's Close is (D1 answers "n" until K<k>).
+    S = "redials"
+    add(["D1", "r0:0", "D1", "K0", "D1", "r1:0", "D1", "D1", "K1", "D1", "C"], "redial-slowclose-reader-fails", S)
+    add(["D1", "W", "w0:0", "D1", "W", "K0", "D1", "w1:0", "D1", "K1", "D1", "C"], "redial-slowclose-writer-fails", S)
+    add(["D1", "W", "r0:0", "D1", "w0:0", "D1", "K0", "D1", "W", "r1:0", "C", "D1", "K1", "D1"], "redial-slowclose-both-fail", S)
+    add(["D1", "C", "D1", "K0", "D1", "W", "R"], "redial-slowclose-user-close", S)
+    add(["D1", "r0:0", "D0", "K0", "D0", "W", "R", "C"], "redial-slowclose-dial-fails", S)
+    add(["D1", "r0:1", "r0:0", "r0:0", "w0:0", "K0", "K0", "D1", "R", "K1", "r1:0", "K1", "D1", "r2:0", "K2", "K1", "D1", "C"],
+        "redial-slowclose-traffic", S)
+    alpha = ["D1", "r:0", "w:0", "K", "W", "C", "D0", "r:1", "w:1"]
+    L = 5 if ctx.tier == "quick" else 6
+    for k in range(2, L + 1):
+        for seq in itertools.product(alpha[:4] if k == L else alpha[:6] if k == L - 1 else alpha, repeat=k - 1):
+            cur, toks = 0, ["D1"]
+            for t in seq:
+                if t == "D1":
+                    cur += 1
+                if ":" in t:
+                    t = "%s%d:%s" % (t[0], cur, t[2])
+                if t == "K":
+                    t = "K%d" % cur
+                toks.append(t)
+            if any(t[0] == "K" or t == "D1" for t in toks[1:]):
+                add(toks, "redial-slowclose-exhaustive", S)
+    for i in range(150 if ctx.tier == "quick" else 2500):
+        cur, toks = -1, []
+        for _ in range(rng.choice([6, 10, 18, 30])):
+            c = rng.random()
+            if c < 0.25:
+                toks.append("D1"); cur += 1
+            elif c < 0.27:
+                toks.append("D0")
+            elif c < 0.37:
+                toks.append("W")
+            elif c < 0.40:
+                toks.append("R")
+            elif c < 0.42:
+                toks.append("C")
+            elif cur >= 0 and c < 0.62:
+                toks.append("K%d" % (cur if rng.random() < 0.8 else rng.randrange(cur + 1)))
+            elif cur >= 0:
+                k = cur if rng.random() < 0.85 else rng.randrange(cur + 1)
+                toks.append("%s%d:%d" % (rng.choice("rw"), k, rng.choice([0, 0, 0, 1])))
+        if toks:
+            add(toks, "redial-slowclose-random", S)
     return lines, kinds
 
 
@@ -393,7 +442,8 @@ def parse_redial(out):
     f = dict(kv.split("=") for kv in rest.split(" "))
     opn = [] if f["open"] == "e" else f["open"].split(".")
     closes = [] if f["closes"] == "e" else [int(x) for x in f["closes"].split(".")]
-    return ans.split(","), int(f["dials"]), opn, int(f["max"]), closes, int(f["left"]), int(f["dialing"])
+    oad = [] if f["oad"] == "e" else [int(x) for x in f["oad"].split(".")]
+    return ans.split(","), int(f["dials"]), opn, int(f["max"]), closes, int(f["left"]), int(f["dialing"]), oad
 
 
 def prop_redial(line, impl, model):
@@ -401,7 +451,7 @@ def prop_redial(line, impl, model):
         return "other: redial driver: " + impl[:200]
     toks = line.split(" ")[3].split(",")
     try:
-        ans, dials, opn, mx, closes, left, dialing = parse_redial(impl)
+        ans, dials, opn, mx, closes, left, dialing, oad = parse_redial(impl)
     except Exception:
         return "other: malformed answer " + impl[:100]
     ended = False
@@ -410,6 +460,10 @@ def prop_redial(line, impl, model):
             return "early-error: %s answered an error before Close and before any dial failure" % t
         if (t == "C" or t == "D0") and r != "n":
             ended = True
+    if any(n > 0 for n in oad):
+        k = [i for i, n in enumerate(oad) if n > 0][0]
+        return ("carrier-overlap: when dialContext handed out carrier %d, the Close() of %d earlier carrier(s) had not returned "
+                "(per dial: %s): more than one carrier is active" % (k, oad[k], oad))
     if mx > 1:
         return "two-active: %d carriers were open at the same time" % mx
     if any(c > 1 for c in closes):
@@ -464,9 +518,11 @@ def monitors(ctx, exe):
     """real goroutine counts and real-clock sweeps: evaluated on the implementation alone"""
     n = 20 if ctx.tier == "quick" else 200
     T = 200
+    nov = 6 if ctx.tier == "quick" else 40
+    ov = ["%s overlap %d %s %d" % (AREA, nov, side, ms) for side, ms in (("r", 40), ("w", 40), ("b", 30))]
     lines = ["%s leak %d w" % (AREA, n), "%s leak %d r" % (AREA, n),
              "%s sweep %d expire %d" % (AREA, T, 8 if ctx.tier == "quick" else 40),
-             "%s sweep %d keep %d" % (AREA, T, 4 if ctx.tier == "quick" else 16)]
+             "%s sweep %d keep %d" % (AREA, T, 4 if ctx.tier == "quick" else 16)] + ov
     rc, out, err = vlib.run_impl(exe, lines, timeout=600)
     if rc != 0 or len(out) != len(lines):
         ctx.violation("driver-crash", "monitor driver died: " + err[-500:], dict(case=lines[len(out)] if len(out) < len(lines) else None))
@@ -496,7 +552,34 @@ def monitors(ctx, exe):
     ctx.count(l, kind="sweep-keep")
     if any(x != "ok" for x in r.split(",")):
         ctx.violation("sweep-lost", "a client seen every timeout/4 lost its queue or its queued packet: " + r, dict(case=l, impl=r))
+    for l, r in zip(lines[4:], out[4:]):
+        ctx.count(l, kind="overlap-slow-close")
+        bad = prop_overlap(l, r)
+        if bad:
+            ctx.violation(bad[0], bad[1], dict(label="overlap", case=l, impl=r))
     ctx.extra["monitor_answers"] = dict(zip(lines, out))
+
+
+def prop_overlap(line, r):
+    """real time: carriers fail after 3 ms, their Close() takes tens of ms; at every dial the Close of
+    every earlier carrier must have returned"""
+    try:
+        f = dict(kv.split("=") for kv in r.split(" "))
+        oad = [] if f["oad"] == "e" else [int(x) for x in f["oad"].split(".")]
+        unclosed, left = int(f["unclosed"]), int(f["left"])
+    except Exception:
+        return ("driver-crash", "overlap monitor answered " + r[:200])
+    a = line.split(" ")
+    if any(n > 0 for n in oad):
+        return (KEY_OVERLAP, "carrier-overlap: carriers whose Close() takes %s ms: at the dials, %s earlier carrier(s) were not closed yet "
+                "(0 expected at every dial: the finished carrier is closed before the next is dialed)" % (a[4], oad))
+    if len(oad) != int(a[2]):
+        return ("redial-other", "other: %d carriers were dialed, %s expected" % (len(oad), a[2]))
+    if unclosed > 0:
+        return ("redial-unclosed", "unclosed: %d carrier(s) were never closed" % unclosed)
+    if left > 0:
+        return (KEY_LEAK_W if a[3] == "w" else KEY_LEAK_R, "leak: %d goroutines of the adapter are alive after the dial failed and Close" % left)
+    return None
 
 
 def run(ctx):
@@ -506,6 +589,7 @@ def run(ctx):
                     "Go scheduler / channel semantics as modelled in coq/Model/Redial.v (select, rendezvous, close)"]
     ctx.assumptions += ["models = coq/Model/{GoHeap,ClientMap,QueueConn,Redial}.v (hand written); tie = correspondence on generated cases",
                         "QueuePacketConn.WriteTo is modelled as one atomic step; a carrier's pending ReadFrom/WriteTo fails once the carrier is closed",
+                        "a carrier is closed when its Close() has RETURNED (model: LDCloseCarrier, a step of the dial loop itself); scripted carriers whose Close blocks until released, and real-time carriers whose Close takes 30-40 ms, record at every dial how many earlier carriers are not closed yet",
                         "clock: explicit for clientMapInner (in-package driver); real for the sweeper monitor (timeout 200 ms, slack 1 timeout)"]
     # container/heap and QueuePacketConn: black box
     rc, capo, err = vlib.run_impl(exe, [AREA + " cap"])
@@ -539,6 +623,12 @@ def replay(ctx, doc):
         if not case:
             continue
         a = case.split(" ")
+        if a[1] == "overlap":
+            rc, r, err = vlib.run_impl(exe, [case])
+            p = prop_overlap(case, r[0] if r else "!died")
+            print("case: %s\n impl: %s\n property: %s" % (case, r, p[1] if p else "holds"))
+            bad += 1 if p else 0
+            continue
         if a[1] in ("leak", "sweep"):
             rc, r, err = vlib.run_impl(exe, [case])
             print("case: %s\n impl: %s" % (case, r))
@@ -551,7 +641,7 @@ def replay(ctx, doc):
         else:
             rc, r, err = vlib.run_impl(exe, [case])
         r = r[0] if r else "!died"
-        p = dict(heap=prop_heap, cm=prop_cm, qc=prop_qc, redial=prop_redial)[a[1]](case, r, m)
+        p = dict(heap=prop_heap, cm=prop_cm, qc=prop_qc, redial=prop_redial, redials=prop_redial)[a[1]](case, r, m)
         print("case: %s\n model: %s\n impl:  %s\n property: %s" % (case[:300], m[:300], r[:300], p or "holds"))
         bad += 1 if p else 0
     return 1 if bad else 0
